@@ -182,59 +182,70 @@ def _refusal(ctx, P):
 
 
 def _mode_table(ctx, P):
+    """R06.3: the dispatch is evaluated on *concrete* modelled chunkings (nothing is read off the text of a condition):
+    per axis call the dask mode and the map_overlap flag handed to the grid ufunc must fit that axis' own chunking."""
     fi = P.func("grid:Grid._1d_grid_ufunc_dispatch")
+    dx, dy, t = dimsym("AX", "center"), dimsym("AY", "center"), Sym("t")
+    one, two = (Lin.sym("n"),), (Lin.sym("n0"), Lin.sym("n1"))
+    configs = [
+        ("in-memory", None),
+        ("lazy, one chunk per dimension", {t: one, dy: one, dx: one}),
+        ("lazy, chunked along AX only", {t: one, dy: one, dx: two}),
+        ("lazy, chunked along AY only", {t: one, dy: two, dx: one}),
+        ("lazy, chunked along AX and AY", {t: one, dy: two, dx: two}),
+        ("lazy, chunked along a non-core dimension only", {t: two, dy: one, dx: one}),
+    ]
     for funcname in ("diff", "cumsum"):
-        try:
-            outs = run_dispatch(P, funcname, {"AX": "center", "AY": "center"}, "left", axnames=("AX", "AY"), axis_arg=[AX, AY])
-        except Unmodelled as e:
-            ctx.unknown("R06.3", f"dask-mode table ({funcname})", str(e))
-            continue
         rows = set()
         bad = None
-        for o in outs:
-            if o.kind != "return":
-                continue
-            dec = o.decisions
-            is_dask = [d[2] for d in dec if "Dask_Array" in d[1] or "dask" in d[1].lower() and "isinstance" in d[1]]
-            lazy = is_dask[0] if is_dask else None
-            ufs = [e for e in o.events if e[0] == "ufunc"]
-            # per axis: the fork decisions taken between consecutive ufunc calls
-            chunk_dec = [d for d in dec if "chunks" in d[1] or "_is_dim_chunked" in d[1]]
-            it = iter(chunk_dec)
-            per_axis = []
-            cur = []
-            for d in chunk_dec:
-                cur.append(d)
-                if "_is_dim_chunked" in d[1] or (("chunks is not None" in d[1] or "chunks" in d[1]) and d[2] is False):
-                    per_axis.append(cur)
-                    cur = []
-            for i, u in enumerate(ufs):
-                kw = u[4]
-                ds = per_axis[i] if i < len(per_axis) else []
-                has_chunks = any("chunks" in d[1] and "_is_dim" not in d[1] and d[2] for d in ds)
-                chunked = any("_is_dim_chunked" in d[1] and d[2] for d in ds)
-                if lazy is False and has_chunks:
-                    continue  # infeasible: in-memory data has no chunks
-                rows.add((lazy, chunked, kw.get("dask"), kw.get("map_overlap")))
-                if lazy and kw.get("dask") == "forbidden":
-                    bad = "a dask-backed input is applied with dask='forbidden' (xarray raises)"
-                if chunked and kw.get("dask") == "parallelized":
-                    bad = bad or "a core dimension with several chunks is applied with dask='parallelized' (xarray refuses chunked core dimensions)"
-                if funcname == "cumsum" and kw.get("map_overlap"):
-                    bad = bad or "cumsum is mapped chunk-wise with map_overlap (a running sum cannot be formed from a fixed overlap)"
-                if not chunked and kw.get("map_overlap"):
-                    bad = bad or "an axis whose core dimension is not chunked is mapped with map_overlap (a decision made for an earlier axis is carried over): inner/outer shifts along it are then refused although they are fine"
-                if lazy is False and kw.get("map_overlap"):
-                    bad = bad or "in-memory data is sent through dask.map_overlap"
-                if chunked and funcname != "cumsum" and not kw.get("map_overlap"):
-                    bad = bad or "a chunked core dimension is neither mapped with map_overlap nor refused"
+        for cname, chunks in configs:
+            for order in ([AX, AY], [AY, AX]):
+                lazy = chunks is not None
+                am = {
+                    ("DataArray", "chunks"): (lambda ev, o, n, chunks=chunks: None if chunks is None else tuple(chunks[d] for d in (t, dy, dx))),
+                    ("DataArray", "data"): (lambda ev, o, n, lazy=lazy: Obj("array", "data", (), {"__isinstance__": ("Array",) if lazy else ("ndarray",)})),
+                    ("DataArray", "variable"): (lambda ev, o, n, chunks=chunks: Obj("Variable", "variable", (), {"chunksizes": dict(chunks or {}), "chunks": None if chunks is None else tuple(chunks[d] for d in (t, dy, dx))})),
+                    ("DataArray", "chunksizes"): (lambda ev, o, n, chunks=chunks: dict(chunks or {})),
+                }
+                inst = f"dask-mode table ({funcname}), {cname}, axes {[a.name for a in order]}"
+                try:
+                    outs = run_dispatch(P, funcname, {"AX": "center", "AY": "center"}, "left", axnames=("AX", "AY"), axis_arg=list(order),
+                                        dims=[t, dy, dx], attr_models=am)
+                except Unmodelled as e:
+                    ctx.unknown("R06.3", inst, str(e))
+                    continue
+                for o in outs:
+                    if o.kind != "return":
+                        bad = bad or f"{cname}: the dispatch raises {o.value}"
+                        continue
+                    ufs = [e for e in o.events if e[0] == "ufunc"]
+                    if len(ufs) != 2:
+                        bad = bad or f"{cname}: {len(ufs)} grid-ufunc calls for two axes"
+                        continue
+                    for ax, u in zip(order, ufs):
+                        kw = u[4]
+                        chunked = lazy and len(chunks[dx if ax == AX else dy]) > 1
+                        rows.add((lazy, chunked, kw.get("dask"), kw.get("map_overlap")))
+                        where = f"{cname}, axis {ax.name} of {[a.name for a in order]}: "
+                        if lazy and kw.get("dask") == "forbidden":
+                            bad = bad or where + "a dask-backed input is applied with dask='forbidden' (xarray raises)"
+                        if chunked and kw.get("dask") == "parallelized":
+                            bad = bad or where + "a core dimension with several chunks is applied with dask='parallelized' (xarray refuses chunked core dimensions)"
+                        if funcname == "cumsum" and kw.get("map_overlap"):
+                            bad = bad or where + "cumsum is mapped chunk-wise with map_overlap (a running sum cannot be formed from a fixed overlap)"
+                        if not chunked and kw.get("map_overlap"):
+                            bad = bad or where + "an axis whose core dimension is not chunked is mapped with map_overlap (a decision made for another axis is carried over): inner/outer shifts along it are then refused although they are fine"
+                        if not lazy and kw.get("map_overlap"):
+                            bad = bad or where + "in-memory data is sent through dask.map_overlap"
+                        if chunked and funcname != "cumsum" and not kw.get("map_overlap"):
+                            bad = bad or where + "a chunked core dimension is neither mapped with map_overlap nor refused"
         ctx.note(f"dask_mode_rows[{funcname}]", sorted(map(repr, rows)))
         if bad:
             ctx.report("R06.3", fi, f"dask-mode table ({funcname})", bad)
         elif len(rows) < 3:
             ctx.unknown("R06.3", f"dask-mode table ({funcname})", f"only {len(rows)} table rows reconstructed")
         else:
-            ctx.ok("R06.3", f"dask-mode table ({funcname})", f"{len(rows)} rows: " + "; ".join(sorted(map(repr, rows))))
+            ctx.ok("R06.3", f"dask-mode table ({funcname})", f"{len(configs)} chunkings x 2 axis orders, {len(rows)} distinct rows: " + "; ".join(sorted(map(repr, rows))))
 
 
 def _wiring(ctx, P):
